@@ -571,3 +571,37 @@ func mpQuiet(P *Program, fn *ssa.Function, acc Accept, q *MustPass) mpResult {
 	q.P = P
 	return q.Check(fn, acc)
 }
+
+
+// ownerOf: the function a piece of code belongs to for the purpose of "who may do this": a local closure belongs to
+// its enclosing function, and an unexported function with exactly one static call site in the module belongs to its
+// caller (an exported entry point split into a thin wrapper and a worker is still that entry point).
+var ownerMemo = map[*ssa.Function]*ssa.Function{}
+var callSiteCount map[*ssa.Function][]*ssa.Function
+
+func ownerOf(P *Program, fn *ssa.Function) *ssa.Function {
+	if o, ok := ownerMemo[fn]; ok {
+		return o
+	}
+	ownerMemo[fn] = fn // cycles
+	res := fn
+	if fn.Parent() != nil {
+		res = ownerOf(P, fn.Parent())
+	} else if fn.Object() != nil && !fn.Object().Exported() && inModuleFn(fn) {
+		if callSiteCount == nil {
+			callSiteCount = map[*ssa.Function][]*ssa.Function{}
+			for _, g := range P.AllFuncs {
+				for _, c := range callsIn(g) {
+					if h := staticCallee(c); h != nil {
+						callSiteCount[h] = append(callSiteCount[h], g)
+					}
+				}
+			}
+		}
+		if cs := callSiteCount[fn]; len(cs) == 1 && cs[0] != fn {
+			res = ownerOf(P, cs[0])
+		}
+	}
+	ownerMemo[fn] = res
+	return res
+}
